@@ -484,6 +484,13 @@ func (sc *StorageCar) Finalize() error {
 	}
 
 	if sc.opts.WriteAsCarV1 {
+		// Nothing to write for a CARv1, but the storage is finished: refuse further writes.
+		sc.mu.Lock()
+		defer sc.mu.Unlock()
+		if sc.closed {
+			return fmt.Errorf("called Finalize on a closed storage CAR")
+		}
+		sc.closed = true
 		return nil
 	}
 
